@@ -96,10 +96,13 @@ CLAIMS.update({
         "text": "For all 38 MAKE_ACCESSORS formats, against a literal per-format field table: fetch_pixel == bit-replicated widening of the raw "
                 "bits for every memory content and x (loop-free proof; indexed formats for every palette), store keeps the most significant "
                 "bits and changes no bit outside the addressed pixels (ghost bit anywhere in the image memory), read/write round trips, "
+                "fetch_scanline / store_scanline of every format as ENFORCED CONTRACTS WITH LOOP INVARIANTS for any width and any x (fetch == widened raw "
+                "pixel; store == narrowed value and no bit outside the addressed pixels changes; symbolic palette for indexed formats), "
                 "scanline reader == single-pixel reader, the accessor build goes through the callbacks only and behaves identically, "
                 "setup_accessors installs exactly the table row of the format, unorm/float converters round-trip and clamp.",
         "note": "Generic float glue (store/fetch_scanline_generic_float, single-pixel float readers) against recording stubs and the converters' "
-                "contracts, widths to 600. Scanline loops are unrolled (width <=4 quick / 8 thorough): bounded. Indexed store side only against a fixed palette. "
+                "contracts, widths to 600. The unrolled width <=4 scanline jobs remain for negative rowstride (bounded); route-D scanline contracts: rows of "
+                "<= 2^20 bytes, top-down, row 0 (any row for 6 formats, accessor build for 8). "
                 "yuy2, yv12, sRGB: only 'scanline reader == single-pixel reader' (relational, bounded); 10-bpc and float formats, dithering, "
                 "big-endian layout: not covered.",
     },
@@ -157,8 +160,10 @@ CLAIMS.update({
                 "cache invariant, combiner/iter/blt/fill delegation, PIXMAN_DISABLE token matching and 'wholeops'.",
         "note": "Trusted: 21 C models of __builtin_ia32_* (cross-checked natively against the real instructions on 2*10^5 vectors each). "
                 "Bounded: dispatch on stub chains (3 implementations x 3 entries), SSE2 row structure for fixed alignment/width cases, C fast "
-                "paths at width 3. NOT covered: the sse2_composite_* routines except through their combiners (107 of 113 table entries), "
-                "84 of 95 C fast paths, MMX, SSSE3 fetcher, cpuid detection; see evidence/C02_tables.json.",
+                "paths at width 3 with the ghost pixel fixed per query. Table status (evidence/C02_tables.json, from scheduled jobs only): 82 of "
+                "117 SSE2 entries and 89 of 108 C entries have at least a bounded pixel job; NOT covered: the scaled nearest/bilinear SSE2 entries "
+                "except through the main-loop jobs borrowed from C08 (scl.*, pad_bounds) and the scanline jobs sscl.* where present, "
+                "fast_composite_scaled_nearest, MMX, SSSE3 fetcher, cpuid detection.",
     },
     "C03": {
         "text": "_pixman_compute_composite_region32 (+ clip_general_image, clip_source_image, real pixman-region32.c) is proved for every flag "
